@@ -17,3 +17,11 @@ claim('C11', 'bounded symbolic execution of the real _read_header + regex-inclus
       'exception type, and that the reported options equal an independent split (integers converted).',
       BASE_NOTE + ' The specification grammar is written as an independent regex and compiled to a Boolean formula '
       'by the NFA builder (validated against re.fullmatch each run).', 'DESIGN.md section 4, C11')
+
+claim('C17', 'symbolic execution of the real _read_until on an interval-abstract stream (pure LIA: block size, stream length, positions are unbounded symbolic integers) + byte-level symbolic runs of the whole reader',
+      'One symbolic run of the real DiffXReader._read_until covers every read-ahead block size k>=1, every stream '
+      'length, start offset and delimiter position (all z3 Ints) for searches needing at most 4 (quick) / 9 (thorough) '
+      'reads: returned chunks tile [pos0, d+1) exactly, the stream is left at d+1, eof flag correct. The whole reader '
+      'is additionally run at byte level with forced block sizes and header paddings and symbolic diff content.',
+      BASE_NOTE + ' Searches needing more reads than the bound are cut and counted in the evidence.',
+      'DESIGN.md section 4, C17; 2.5')
